@@ -25,7 +25,7 @@ theorem get?_put (h : Heap) (i j : Nat) (o : Option SNode) :
   by_cases hi : i < h.slots.length
   · simp only [hi, if_true, List.getElem?_set]
     by_cases hj : j = i
-    · subst hj; simp [hi]
+    · subst hj; simp
     · simp [hj, Ne.symm hj]
   · simp only [hi, if_false]
     by_cases hj : j = i
